@@ -25,6 +25,24 @@ Definition export_body (l : list stmt) : list item := flat_map export_stmt l.
 (* TestSuiteWriter.write, per test case: remove_unused_variables, then the body *)
 Definition export (t : tc) : list item := export_body (stmts (remove_unused_variables t)).
 
+(* TestSuiteWriter._build_test_function walks zip(tc.statements(), exc_types, strict=False): the
+   per-statement exception list from the re-execution decides only HOW a statement is emitted
+   (bare, inside `with pytest.raises(...)`, or bare under an xfail marker), never WHETHER; but the
+   zip stops at the shorter list.  [excs] = one entry per re-executed statement (true: it raised). *)
+Fixpoint build_body (l : list stmt) (excs : list bool) : list item :=
+  match l, excs with
+  | s :: r, _ :: es => export_stmt s ++ build_body r es
+  | _, _ => []
+  end.
+
+(* _per_statement_exceptions: one entry per statement, whatever raised or timed out (after a
+   timeout the remaining entries are padded with None) *)
+Definition per_statement_exceptions (l : list stmt) (raised : nat -> bool) : list bool :=
+  map raised (seq 0 (length l)).
+
+Definition export_reexec (t : tc) (raised : nat -> bool) : list item :=
+  let l := stmts (remove_unused_variables t) in build_body l (per_statement_exceptions l raised).
+
 Definition is_assert (i : item) : bool := match i with IAssert _ => true | IStmt _ => false end.
 
 (* the code before the fix *)
@@ -49,5 +67,12 @@ Definition obs_item (p : bool * N) : item :=
   if fst p then IAssert {| a_root := None; a_render := true; a_id := snd p |} else IStmt (snd p).
 Definition check_export (c : ecase) : bool :=
   let '(pre, obs) := c in list_eqb item_eqb (export pre) (map obs_item obs).
+
+(* export with re-execution: (test case, number of entries _per_statement_exceptions returned, items) *)
+Definition xcase := (tc * nat * list (bool * N))%type.
+Definition check_export_x (c : xcase) : bool :=
+  let '(pre, n_exc, obs) := c in
+  Nat.eqb n_exc (size (remove_unused_variables pre))
+  && list_eqb item_eqb (build_body (stmts (remove_unused_variables pre)) (repeat false n_exc)) (map obs_item obs).
 
 End C19.
